@@ -155,6 +155,13 @@ func (fr *Frame) sprintf(site ssa.Instruction, args []Value, st *State) *Term {
 			piece = App("render", SStr, iv.Tag, iv.Val)
 			if isErrorTag(iv.Tag) {
 				piece = App("errmsg", SStr, iv.Val)
+			} else if iv.Tag.Op == "int" {
+				if t, ok := typeTagTypes[iv.Tag.Int]; ok && kindOf(t) == "opaque" {
+					// a boxed scalar value (uuid.UUID, time.Time ...): the text is a function of the value, not of the box
+					if val, ok := st.load(iv.Val, t).(*Term); ok {
+						piece = App("textOf_"+typeKey(t), SStr, val)
+					}
+				}
 			}
 		default:
 			piece = App("render_"+string(verb), SStr, iv.Tag, iv.Val)
